@@ -72,8 +72,10 @@ def ast_obligations(chk):
     # run_rules: the instance is created from the current context before run() is called
     f = repo.find_function("norminette/registry.py:Registry.run_rules")
     first = f.node.body[0]
-    ok = isinstance(first, ast.Assign) and isinstance(first.value, ast.Call) and isinstance(first.value.func, ast.Name) \
-        and first.value.func.id == "rule" and [ast.unparse(a) for a in first.value.args] == ["context"]
+    params = [a.arg for a in f.node.args.args]          # (self, <context>, <rule class>) whatever they are called
+    ok = len(params) == 3 and isinstance(first, ast.Assign) and isinstance(first.value, ast.Call) \
+        and isinstance(first.value.func, ast.Name) and first.value.func.id == params[2] \
+        and [ast.unparse(a) for a in first.value.args] == [params[1]]
     runs = [x for x in ast.walk(f.node) if isinstance(x, ast.Call) and isinstance(x.func, ast.Attribute) and x.func.attr == "run"]
     ok = ok and all(x.lineno > first.lineno for x in runs) and len(runs) >= 1
     chk.frame("run_rules.instance_before_run", ok, {"first_statement": ast.unparse(first)},
